@@ -73,6 +73,38 @@ def verify_rules(prog, chk, pid):
         u2 = [t for t in subterms(v) if t.op == "bin" and t.args[0] == "Mod" and unsnap(t.args[2]) is n_t and unsnap(t.args[1]).op == "bin" and unsnap(t.args[1]).args[0] == "Mult" and any(unsnap(x) is c_t for x in unsnap(t.args[1]).args[1:]) and any(unsnap(x) is r_t for x in unsnap(t.args[1]).args[1:])]
         ok = ok and bool(u1) and bool(u2) and "'x'" in txt
     chk.require(ok, P("verification-equation"), fi.qualname, "x(u1*G + u2*Q) mod n == r, u1 = e*s^-1 mod n, u2 = r*s^-1 mod n", where, "the value compared with r is built from hash, r and the inverse of s as ECDSA prescribes", "returned verdict is not the ECDSA verification equation")
+    # u1*G + u2*Q can be the point at infinity (r = -e/d mod n, craftable by whoever knows d): it has no x coordinate (INFINITY.x() is None), the signature is
+    # invalid (SEC 1, 4.1.4 step 5) and must be refused like any other -- not fail with TypeError in `None % n`
+    xs = [e for e in ev if e.kind in ("mcall", "call") and (e.d.get("name") == "x" or getattr(e.d.get("callee"), "name", None) == "x")]
+    okx, whyx = bool(xs), "no x() call on the computed point"
+    for xe in xs:
+        pt = unsnap(xe.d["recv"]) if xe.d.get("recv") is not None else None
+        if pt is None:
+            continue
+        alts = set()
+        stack = [pt]
+        while stack:
+            t_ = unsnap(stack.pop())
+            alts.add(t_.uid)
+            if t_.op == "phi":
+                stack += [t_.args[1], t_.args[2]]
+        guarded = False
+        for g in ev:
+            if g.kind != "guard" or g.d.get("term") != "return" or not dominates(g, xe):
+                continue
+            arm = g.d.get("arm")
+            rv = [x for x in ev[arm[0] - res.start:arm[1] - res.start] if x.kind == "return"] if arm else []
+            if not rv or not (is_const(rv[0].d["value"]) and cval(rv[0].d["value"]) is False):
+                continue
+            for d in disjuncts(raise_rel(g)):
+                if d[0] == "rel" and d[1] in ("Eq", "Is") and d[3] is not None:
+                    for x_, y_ in ((d[2], d[3]), (d[3], d[2])):
+                        if unsnap(x_).uid in alts and "INFINITY" in show(y_, 3):
+                            guarded = True
+        if not guarded:
+            okx, whyx = False, "the sum u1*G + u2*Q is used without being compared with INFINITY: for r = -e/d mod n it is the point at infinity, x() is None and `None % n` raises TypeError instead of the signature being refused"
+    chk.require(okx, P("verify-infinity-refused"), fi.qualname, "xy == INFINITY -> return False, before xy.x() % n", where,
+                "a signature for which u1*G + u2*Q is the point at infinity is refused (SEC 1, 4.1.4 step 5) before the x coordinate is taken", whyx)
 
 
 def _is_retry_counter(ex, t) -> bool:
@@ -747,6 +779,11 @@ def run(prog, chk, tier):
 
     c17.sibling_rules(prog, chk, "C18")
     c17.mul_add_rules(prog, chk, "C18")
+    c17.two_torsion_rules(prog, chk, "C18")
+    # the DER signature decoder's primitives accept exactly their identifier octets (a flipped class bit in 30 / 02 must not go unnoticed)
+    from rules import c19
+
+    c19.der_tag_rules(prog, chk, "C18", only={"remove_sequence", "remove_integer"})
     stackrt.guarded(chk, "C18.sig-codec-scenarios", sig_codec_scenarios, prog, chk, "C18", tier)
     chk.assume("group orders are >= 2, so fixed-length signature fields are at least one byte long")
     chk.assume("numeric correctness of ECDSA (group-law formulas: C17 clauses; hash functions; RFC 6979 HMAC-DRBG) is outside this check")
